@@ -13,6 +13,19 @@ NA = {
 PENDING = "check not built yet (planned, DESIGN.md section 6)"
 
 CHECKS = {
+    "C12": dict(
+        category="proof",
+        text="Deductive: VCs from the real text of util._create_splicer (precedence force > user splicer > default, marker "
+             "lines, body appended complete/in order/unchanged), splicer.get_splicers (two-state line machine: one store "
+             "event per well-formed block, lines right-stripped, complete, in order; only RuntimeError) and the emission "
+             "identity of a user line through write_lines/write_continue, discharged by z3/cvc5 for all inputs. The "
+             "unrestricted emission identity is a recorded known finding (interior TAB / trailing '+'); it is proved under "
+             "the finding's carve-out.",
+        design_ref="6/C12, A.4, A.5",
+        note="Trusted: pyvc, z3/cvc5, abstract nested-dict store (class Tree), split()/rstrip() vocabulary. Not covered: "
+             "reader path vs emitter stack correspondence (bounded monitor only), source precedence in main_with_args, listify.",
+        technique="contract-based deductive verification (AST-generated VCs, z3+cvc5)",
+    ),
     "C13": dict(
         category="proof",
         text="Deductive: verification conditions generated from the real source text of util.WrapperMixin.write_continue "
